@@ -225,8 +225,9 @@ theorem qgram_index_source_eq_model {αβ ρ τ : Type} (rankNew : αβ → ρ) 
           (buildIndex (2 ^ (getWidth * q)) mc (qgramsOf q text)).2, rankNew alphabet) :=
   GenSrcQGramIndex.withMaxCount_eq_model rankNew getWidth qgramsOf prescanAdd q text alphabet mc hw hbq hcodes hlen hps
 
-/-- … hence the index the source text builds lists, for every q-gram over the alphabet, exactly its text positions
-(nothing when it occurs more than `max_count` times) — `qgram_matches` on the translated result = `qgramPositions` -/
+/-- … hence the *translated* `qgram_matches` on the index the *translated* `with_max_count` builds returns, for every
+q-gram over the alphabet, exactly its text positions (nothing when it occurs more than `max_count` times) — no read of
+`address` and no slice of `pos` is out of range -/
 theorem qgram_index_source_positions_exact {αβ ρ : Type} (rankNew : αβ → ρ) (alpha : List Nat)
     (prescanAdd : List Nat → Nat → Rs.Res (List Nat)) (q : Nat) (text : List Nat) (alphabet : αβ) (mc : Nat)
     (hq : 0 < q) (hbq : bitsFor alpha.length * q < 64) (ht : ∀ c ∈ text, c ∈ alpha) (hlen : text.length + 1 < 2 ^ 64)
@@ -234,15 +235,25 @@ theorem qgram_index_source_positions_exact {αβ ρ : Type} (rankNew : αβ → 
     ∃ address pos, Gen.SrcQGramIndex.withMaxCount rankNew (bitsFor alpha.length) (fun q t => fwdCodes alpha q t) prescanAdd
         q text alphabet mc = Rs.Res.ok (q, address, pos, rankNew alphabet) ∧
       ∀ gram, (∀ c ∈ gram, c ∈ alpha) → gram.length = q →
-        qgramMatchesModel (address, pos) (code (bitsFor alpha.length) (gram.map (rank alpha)))
-          = qgramPositions mc gram text := by
+        Gen.SrcQGramIndex.qgramMatches rankNew (bitsFor alpha.length) (fun q t => fwdCodes alpha q t) address pos
+            (code (bitsFor alpha.length) (gram.map (rank alpha)))
+          = Rs.Res.ok (qgramPositions mc gram text) := by
+  have hcodes := GenSrcQGramIndex.fwdCodes_lt alpha q text ht
   refine ⟨_, _, qgram_index_source_eq_model rankNew (bitsFor alpha.length) (fun q t => fwdCodes alpha q t) prescanAdd q text
     alphabet mc (by
       have : bitsFor alpha.length * 1 ≤ bitsFor alpha.length * q := Nat.mul_le_mul_left _ hq
-      omega) hbq (GenSrcQGramIndex.fwdCodes_lt alpha q text ht)
+      omega) hbq hcodes
     (by have := GenSrcQGramIndex.fwdCodes_length_le alpha q text; omega) hps, ?_⟩
   intro gram hg hgl
-  exact indexModel_eq alpha q mc text gram hq ht hg hgl
+  have hsz : 2 ^ (bitsFor alpha.length * q) + 1 < 2 ^ 64 := by
+    have : 2 ^ (bitsFor alpha.length * q) ≤ 2 ^ 63 := Nat.pow_le_pow_right (by omega) (by omega)
+    omega
+  have hcl : code (bitsFor alpha.length) (gram.map (rank alpha)) < 2 ^ (bitsFor alpha.length * q) := by
+    have := qgram_code_bound alpha gram hg
+    rw [hgl] at this; exact this
+  rw [GenSrcQGramIndex.qgramMatches_eq_model rankNew (bitsFor alpha.length) (fun q t => fwdCodes alpha q t)
+    (2 ^ (bitsFor alpha.length * q)) mc (fwdCodes alpha q text) hcodes hsz _ hcl]
+  exact congrArg Rs.Res.ok (indexModel_eq alpha q mc text gram hq ht hg hgl)
 
 -- the translated constructor on "abccbc" over {a, b, c}, q = 2 (codes 1, 6, 10, 9, 6): address table and positions
 example : Gen.SrcQGramIndex.withMaxCount (αβ := Unit) (ρ := Unit) (fun _ => ()) 2
